@@ -162,15 +162,17 @@ PROPS['C07'] = dict(
 
 PROPS['C09'] = dict(
     level='exploration',
-    rule='choice tape -> up to 8 sub-cases: kernel in {mulmm, mulTm, mulmT, mulTT, T2 (+back), T1 (vs T2, twice), eye1/eye2, tri1/tri2, diag+diag1, diag2, triL/triL1/triL2/triU/triU1/triU2}, '
-         'row/col/inner dimensions independent in 1..9 (thorough: 1..20), contents from three classes (small integers, integers with signed zeros, reals with exponents 2^-8..2^8); inputs and outputs are '
+    rule='three builds: a_real = double, float, long double (A_SIZE_REAL = 8 / 4 / 16). choice tape -> up to 8 sub-cases: kernel in {mulmm, mulTm, mulmT, mulTT, T2 (+back), T1 (vs T2, twice), eye1/eye2, tri1/tri2, diag+diag1, diag2, triL/triL1/triL2/triU/triU1/triU2}, '
+         'row/col/inner dimensions independent in 1..9 (thorough: 1..20), one case in 16 with dimensions from {15..140}, contents from three classes (small integers, integers with signed zeros, reals with exponents 2^-8..2^8, in a quarter of the fills stretched to 2^+-24 / 2^+-400 / 2^+-7200 by type - beyond the double range in the long double build); inputs and outputs are '
          'exact-size heap blocks under ASan, outputs pre-filled with a signalling value so that unwritten cells are detected; products compared exactly with a long double triple loop for the integer classes and within '
          '4*(k+1)*u*sum|x||y| for reals; all other kernels compared bitwise with the pattern written from the header text. non-trivial = rows != cols for a rectangular kernel, three pairwise different '
          'dimensions for a product, or T1 on n >= 3; distinct = hash of (kernel, dimensions, contents)',
     assumptions=COMMON_ASSUME + ['dimensions >= 1 as the statement quantifies', 'reference: long double triple loop on explicitly transposed index expressions'],
-    units=lambda tier, seed: [Unit('linalg', 'exec/C09.cc', ['linalg.c'], exec_defs=['-DVP_MAXDIM=%d' % (20 if tier == 'thorough' else 9)], tape_len=400 if tier == 'thorough' else 256)],
-    plan={'quick': dict(rc_procs=10, rc_cases=40000, fuzz_procs=6, fuzz_secs=20),
-          'thorough': dict(rc_procs=8, rc_cases=400000, fuzz_procs=8, fuzz_secs=240)},
+    units=lambda tier, seed: [Unit(nm, 'exec/C09.cc', ['linalg.c'], defs=config_defs(real), exec_defs=['-DVP_MAXDIM=%d' % (20 if tier == 'thorough' else 9)],
+                                   tape_len=400 if tier == 'thorough' else 256, config='a_real = %s (A_SIZE_REAL=%d)' % (ty, real))
+                              for nm, real, ty in (('linalg', 8, 'double'), ('linalg-f32', 4, 'float'), ('linalg-f80', 16, 'long double'))],
+    plan={'quick': dict(rc_procs=5, rc_cases=40000, fuzz_procs=2, fuzz_secs=20),
+          'thorough': dict(rc_procs=5, rc_cases=400000, fuzz_procs=3, fuzz_secs=240)},
     tolerances={'real_product_bound': '4*(k+1)*2^-53*sum|x_l||y_l|', 'integer_classes': 'exact'},
     technique='property-based testing against definitional reference loops (differential oracle), exact-size ASan-guarded inputs/outputs, rapidcheck choice tapes + libFuzzer',
     level_text='generated shapes (square, tall, wide, inner dimension 1) and contents for every kernel of linalg.c compared with the definition; sampling, not proof',
